@@ -312,15 +312,29 @@ func genSessions(c *lib.Ctx, rng *rand.Rand) []sessIn {
 			add(sessIn{Kind: "slow-receiver", Asset: a.path, MPD: a.mpd, Cfg: cfgIn{Mode: "number", Snr: -1, Tsbd: -1}, NowMS: 40000 + int64(rep)*2000, Test: true, Events: ev3, Dur: intp(60)})
 		}
 	}
-	// 5. generated subtitles ($Number$)
+	// 5. generated subtitles (timesubsstpp_/timesubswvtt_) under every addressing mode: the generated
+	//    tracks are representations like the others (init first, one segment per step, body == GET,
+	//    $Time$ address == tfdt in milliseconds)
+	subsCfgs := []struct {
+		stpp, wvtt []string
+	}{{[]string{"en"}, nil}, {[]string{"en", "sv"}, nil}, {nil, []string{"en"}}, {[]string{"sv"}, []string{"en", "de"}}}
 	for rep := 0; rep < mult; rep++ {
-		for k, langs := range [][]string{{"en"}, {"en", "sv"}} {
-			s := sessIn{Kind: "timesubs", Asset: "testpic_2s", MPD: "Manifest.mpd", Cfg: cfgIn{Mode: []string{"number", "tlnr"}[(k+rep)%2], Snr: -1, Tsbd: -1, TimeSubs: langs},
-				NowMS: 10000 + int64(rep)*4001, Test: true, Events: steps(2 + k + rep%3), Streams: k == 1}
-			if rep%2 == 1 {
-				s.Dur = intp(4)
+		for k, sc := range subsCfgs {
+			for mi, mode := range []string{"tlt", "number", "tlnr"} {
+				if !c.Thorough() && (k+mi)%2 == 1 && mode != "tlt" {
+					continue
+				}
+				a := sessAssets[[]int{0, 0, 3, 2}[(k+mi+rep)%4]]
+				if rep > 0 {
+					a = sessAssets[(k+mi+rep)%6]
+				}
+				s := sessIn{Kind: "timesubs", Asset: a.path, MPD: a.mpd, Cfg: cfgIn{Mode: mode, Snr: -1, Tsbd: -1, TimeSubs: sc.stpp, TimeSubsW: sc.wvtt},
+					NowMS: []int64{10000, 425842, 1700000000000, 24000}[(k+mi+rep)%4], Test: true, Events: steps(2 + (k+mi+rep)%3), Streams: (k+mi)%3 == 1}
+				if (k+mi+rep)%3 == 2 {
+					s.Dur = intp(4)
+				}
+				add(s)
 			}
-			add(s)
 		}
 	}
 	// 6. chunked low latency: every step takes about ato seconds of real time; few, in parallel
@@ -390,7 +404,7 @@ func genSessions(c *lib.Ctx, rng *rand.Rand) []sessIn {
 	//       before the first segment is complete): send on closed channel, the process dies
 	add(sessIn{Kind: "r:chunked-before-first", Asset: "testpic_2s", MPD: "Manifest.mpd", Cfg: cfgIn{Mode: "number", Snr: -1, Tsbd: -1, AtoMS: 1000, ChunkDurMS: 1000}, NowMS: 500, Test: true, Events: steps(1), Solo: true})
 	//   (c) $Time$ addressing with generated subtitles: nil representation in generateTimelineEntries
-	add(sessIn{Kind: "f:timeline-timesubs", Asset: "testpic_2s", MPD: "Manifest.mpd", Cfg: cfgIn{Mode: "tlt", Snr: -1, Tsbd: -1, TimeSubs: []string{"en"}}, NowMS: 10000, Test: true, Events: steps(1), Solo: true})
+	add(sessIn{Kind: "r:timeline-timesubs", Asset: "testpic_2s", MPD: "Manifest.mpd", Cfg: cfgIn{Mode: "tlt", Snr: -1, Tsbd: -1, TimeSubs: []string{"en"}}, NowMS: 10000, Test: true, Events: steps(1)})
 	//   (d) chunked and a receiver that answers 500 once: the session hangs for ever
 	{
 		ev := steps(2)
@@ -933,6 +947,16 @@ func judge(c *lib.Ctx, terms *[]string, s *sessIn, p *played, a *lib.TLAsset) {
 					fail("order:time", fmt.Sprintf("%s: segment %d has time %d, expected %d", r.id, q.SeqNr, q.Tfdt, r.tab.LoopS(n)))
 				}
 			}
+			if timeMode && r.tab == nil && r.ctype == "text" {
+				// generated subtitles: millisecond timescale, the start of the reference segment rounded to ms
+				n := q.SeqNr - startNr
+				if n >= 0 {
+					want := (2*ref.LoopS(n)*1000 + ref.Timescale) / (2 * ref.Timescale)
+					if q.Tfdt != want {
+						fail("order:time", fmt.Sprintf("%s: segment %d has time %d ms, the reference segment starts at %d ms", r.id, q.SeqNr, q.Tfdt, want))
+					}
+				}
+			}
 			if !q.GetEqual {
 				fail("body:differs", fmt.Sprintf("%s %s: body differs from GET %s (status %d) %s", r.id, q.File, q.GetURL, q.GetCode, q.GetNote))
 			}
@@ -1194,6 +1218,9 @@ func sessTermDead(id int, s *sessIn, a *lib.TLAsset) string {
 		add("RAudio", a.Rep("A48"))
 	}
 	for range s.Cfg.TimeSubs {
+		add("RText", nil)
+	}
+	for range s.Cfg.TimeSubsW {
 		add("RText", nil)
 	}
 	segDur := 1000 * (ref.Segs[0].End - ref.Segs[0].Start) / ref.Timescale
